@@ -485,6 +485,61 @@ def g_opthelp(s, P):
     return P
 
 
+def g_badcalls(s, P):
+    """fault injection at the API: calls that are documented (or bound) to raise, interleaved with ordinary ones; what raises must
+    raise the same way in the pristine run, and must leave nothing behind that changes any later call"""
+    pts = s.choice([6, 8])
+    xx = P.add('grid', pts)
+    phi1 = P.add('phi_1D', xx)
+    phi2 = P.add('phi_1D_to_2D', xx, phi1)
+    fs = P.add('from_phi', phi2, [4, 3], T(xx, xx))
+    f1 = P.add('mk_spectrum', s.randint(0, 3), [7], 0.1)
+    for _ in range(s.randint(2, 6)):
+        r = s.randrange(14)
+        if r == 0:
+            P.add('S.project', fs, [6, 3])                      # projecting up
+        elif r == 1:
+            P.add('S.fold', P.add('S.fold', fs))                # folding a folded spectrum
+        elif r == 2:
+            P.add('Integration.two_pops', phi2, xx, 0.01, 1.0, 1.0, initial_t=0.05)     # T < initial_t
+        elif r == 3:
+            P.add('Integration.two_pops', phi2, xx, 0.02, 1.0, 1.0, frozen1=True, m12=1.0)   # frozen with migration
+        elif r == 4:
+            p3 = P.add('phi_2D_to_3D_split_1', xx, phi2)
+            P.add('phi_3D_to_4D', p3, 0.8, 0.8, xx, xx, xx, xx)  # admixture proportions > 1
+        elif r == 5:
+            P.add('from_phi', phi2, [4], T(xx))                  # dimension mismatch
+        elif r == 6:
+            P.add('cached_projection', 4, 2, 1)                  # projecting from fewer samples: documented short-circuit
+        elif r == 7:
+            P.add('S.marginalize', fs, [5])                      # no such axis
+        elif r == 8:
+            P.add('ll_multinom', fs, f1)                         # shapes do not match
+        elif r == 9:
+            P.add('LP.partitions_and_probabilities', 5, 'allele_frequency', 0, 2)     # odd number of haplotypes
+        elif r == 10:
+            P.add('from_phi_inbreeding', phi2, [4, 4], T(xx, xx), [0.1], [2, 2])      # one inbreeding coefficient for two pops
+        elif r == 11:
+            P.add('G.sum_chi2_ppf', 1.0, [0.5, 0.6])             # weights do not sum to one
+        elif r == 12:
+            P.add('phi_2D_to_3D_admix', phi2, 1.5, xx, xx, xx)   # f > 1
+        else:
+            P.add('Integration.one_pop', phi1, xx, 0.01, -1.0)   # negative population size
+        # ordinary calls afterwards
+        q = s.randrange(5)
+        if q == 0:
+            P.add('S.project', fs, [2, 2])
+        elif q == 1:
+            P.add('Integration.two_pops', phi2, xx, 0.02, 1.0, 2.0, m12=1.0)
+        elif q == 2:
+            P.add('S.fold', f1)
+        elif q == 3:
+            P.add('from_phi', phi2, [3, 3], T(xx, xx))
+        else:
+            P.add('E4.seterr_probe')
+    return P
+
+
 def g_objective(s, P):
     """the objective function behind every optimiser wrapper, on a real model, with bounds / fixed parameters"""
     mid = s.choice(['two_epoch_raw', 'two_epoch_raw', 'growth_raw'])
@@ -678,7 +733,7 @@ def g_interference(s, P):
 
 TEMPLATES = [
     (g_chain1d, 10), (g_chain2d, 12), (g_chain3d, 7), (g_chain4d, 6), (g_chain5d, 2), (g_spectrum, 10), (g_numerics, 7),
-    (g_lowpass, 4), (g_lowpass_model, 2), (g_lowpass_dd, 3), (g_optgrid, 2), (g_datadict, 5), (g_opthelp, 4), (g_objective, 3), (g_inbreeding, 4), (g_extrap, 5), (g_demes, 6), (g_godambe, 8), (g_godambe_neg, 2), (g_godambe_real, 2),
+    (g_badcalls, 5), (g_lowpass, 4), (g_lowpass_model, 2), (g_lowpass_dd, 3), (g_optgrid, 2), (g_datadict, 5), (g_opthelp, 4), (g_objective, 3), (g_inbreeding, 4), (g_extrap, 5), (g_demes, 6), (g_godambe, 8), (g_godambe_neg, 2), (g_godambe_real, 2),
 ]
 
 
